@@ -238,6 +238,67 @@ func c07Path(g *gen, name string, fd *ast.FuncDecl, env map[string]int64, prefix
 	return
 }
 
+// c07ShellIn: forwardShellClientData ranges over splitShellClientMessage(data)
+// and sends each message with SendToPeer; splitShellClientMessage caps the
+// STDIN payload of each message at "if n > CAP { n = CAP }" and re-frames it
+// with shell.EncodeStdin.
+type c07Row struct {
+	name     string
+	buf, pre int64
+	split    bool
+}
+
+func c07ShellIn(g *gen, agentFile *ast.File, env map[string]int64, msgPre int64, stdinViaMessage bool) (r c07Row) {
+	r.name, r.buf, r.pre, r.split = "shellin", c07Bad, c07Bad, false
+	fwd := findFunc(agentFile, "Agent", "forwardShellClientData")
+	sp := findFunc(agentFile, "", "splitShellClientMessage")
+	if fwd == nil || sp == nil || fwd.Body == nil || sp.Body == nil {
+		g.note("shellin: forwardShellClientData / splitShellClientMessage not found")
+		return
+	}
+	body := src(fwd.Body)
+	if !strings.Contains(body, "range splitShellClientMessage(") || !strings.Contains(body, ".SendToPeer(") || strings.Contains(body, ".WriteStreamData(") {
+		g.note("shellin: forwardShellClientData does not send the split messages with SendToPeer")
+		return
+	}
+	local := map[string]int64{}
+	for k, v := range env {
+		local[k] = v
+	}
+	ast.Inspect(sp.Body, func(n ast.Node) bool {
+		switch x := n.(type) {
+		case *ast.GenDecl:
+			for _, s := range x.Specs {
+				if vs, ok := s.(*ast.ValueSpec); ok {
+					for i, nm := range vs.Names {
+						if i < len(vs.Values) {
+							if v, ok := c07Eval(vs.Values[i], local); ok {
+								local[nm.Name] = v
+							}
+						}
+					}
+				}
+			}
+		case *ast.IfStmt:
+			if be, ok := x.Cond.(*ast.BinaryExpr); ok && be.Op == token.GTR && src(be.X) == "n" {
+				if v, ok := c07Eval(be.Y, local); ok && len(x.Body.List) == 1 && src(x.Body.List[0]) == "n = "+src(be.Y) {
+					r.buf = v
+				}
+			}
+		}
+		return true
+	})
+	if strings.Contains(src(sp.Body), "shell.EncodeStdin(payload[:n])") && stdinViaMessage {
+		r.pre = msgPre
+	}
+	// messages that are passed through unchanged must fit as well
+	if v, ok := local["maxMessage"]; !ok || v != r.buf+r.pre {
+		g.note("shellin: pass-through bound %d is not cap + framing", v)
+		r.buf = c07Bad
+	}
+	return
+}
+
 func genC07(g *gen) {
 	env := map[string]int64{}
 	c07Consts(parseFile("internal/protocol/types.go"), "protocol", env)
@@ -355,11 +416,7 @@ func genC07(g *gen) {
 	noPrefix := func(call *ast.CallExpr) (int64, bool) { return 0, false }
 
 	agentFile := parseFile("internal/agent/agent.go")
-	type row struct {
-		name     string
-		buf, pre int64
-		split    bool
-	}
+	type row = c07Row
 	var rows []row
 	add := func(name string, fd *ast.FuncDecl, e map[string]int64, pf func(*ast.CallExpr) (int64, bool)) {
 		b, p, s := c07Path(g, name, fd, e, pf)
@@ -370,6 +427,7 @@ func genC07(g *gen) {
 	add("forward", findFuncInDir("internal/forward", "Handler", "readLoop"), env, noPrefix)
 	add("shellout", findFuncInDir("internal/shell", "Handler", "pumpOutput"), shellEnv, shellPrefix)
 	add("shellpty", findFuncInDir("internal/shell", "Handler", "pumpPTYOutput"), shellEnv, shellPrefix)
+	rows = append(rows, c07ShellIn(g, agentFile, env, msgPre, encodeViaMessage("EncodeStdin")))
 	add("file-upload", findFunc(agentFile, "Agent", "streamFileContent"), env, noPrefix)
 	add("file-download", findFunc(agentFile, "Agent", "sendFileDownload"), env, noPrefix)
 
